@@ -91,3 +91,70 @@ def track_layout(P, size):
 
 def k_intra(P):
     return P.k_of_rate(P.ri)
+
+
+def within_capacity_damage(rng, P, tree, data, only_files=None):
+    """damage the files (dict of bytearray) and the ecc body `data` (bytearray) block by block within capacity;
+    returns (damaged tree, set of files whose protected region changed). Natural occurrences of the erasure
+    symbol are counted into f."""
+    bounds = eu.entry_bounds(bytes(data))
+    dmg = {p: bytearray(c) for p, c in tree.items()}
+    damaged = set()
+    ec = P.erasure_symbol if P.erasures else None
+    hist = {"blocks_damaged": 0, "at_capacity": 0, "hash_damaged": 0, "parity_damaged": 0}
+    for (s, e) in bounds:
+        f = eu.parse_entry(bytes(data), s, e)
+        p = f["relpath"].decode("latin-1")
+        if (only_files is not None and p not in only_files) or rng.random() < 0.25:
+            continue
+        tl, _tot = track_layout(P, len(tree[p]))
+        t0 = f["track"][0]
+        for (off, ln, k), ho, po, pl in tl:
+            if rng.random() < 0.4:
+                continue
+            cand = [("m", off + i) for i in range(ln)] + [("p", t0 + po + i) for i in range(pl)]
+
+            def cur(ps):
+                return dmg[p][ps[1]] if ps[0] == "m" else data[ps[1]]
+
+            def setv(ps, v):
+                if ps[0] == "m":
+                    dmg[p][ps[1]] = v
+                else:
+                    data[ps[1]] = v
+                    hist["parity_damaged"] += 1
+            if ec is None:
+                e_ = rng.choice([pl // 2, pl // 2, rng.randint(0, pl // 2)])
+                pos = rng.sample(cand, min(e_, len(cand)))
+                for ps in pos:
+                    v = cur(ps)
+                    setv(ps, rng.choice([x for x in (v ^ 0xFF, (v + 1) % 256, (v + 101) % 256) if x != v]))
+                if pos:
+                    hist["blocks_damaged"] += 1
+                    hist["at_capacity"] += (len(pos) == pl // 2)
+            else:
+                fnat = sum(1 for ps in cand if cur(ps) == ec)
+                if fnat > pl:
+                    continue
+                c2 = [ps for ps in cand if cur(ps) != ec]
+                for ps in rng.sample(c2, min(rng.randint(0, pl - fnat), len(c2))):
+                    setv(ps, ec)
+                fcur = sum(1 for ps in cand if cur(ps) == ec)
+                emax = (pl - fcur) // 2
+                c2 = [ps for ps in cand if cur(ps) != ec]
+                pos = rng.sample(c2, min(rng.choice([emax, rng.randint(0, emax)]), len(c2)))
+                for ps in pos:
+                    v = cur(ps)
+                    setv(ps, rng.choice([x for x in (v ^ 0xFF, (v + 1) % 256, (v + 7) % 256) if x != v and x != ec]))
+                hist["blocks_damaged"] += 1
+                hist["at_capacity"] += (2 * len(pos) + fcur >= pl - 1)
+            if rng.random() < 0.1:
+                hl = eu.HASHLEN[P.hash]
+                data[t0 + ho + rng.randrange(hl)] ^= 0x55
+                hist["hash_damaged"] += 1
+    out = {p: bytes(c) for p, c in dmg.items()}
+    for p in tree:
+        prot = len(tree[p]) if P.tool == "whole" else min(P.size, len(tree[p]))
+        if out[p][:prot] != tree[p][:prot]:
+            damaged.add(p)
+    return out, damaged, hist
